@@ -19,7 +19,7 @@ def _is_symbolic(pid):
 def list_jobs(tier):
     ids = [i for i in corpus.registry_ids(include_f64=False) if _is_symbolic(i)]
     if tier == "quick":
-        ids = ids[:: max(1, len(ids) // 150)]
+        ids = ids[:: max(1, len(ids) // 70)]
     return families.ids("A4", tier) + [i for i in families.ids("A8", tier) if "/sym_" in i] + ids
 
 
@@ -38,6 +38,8 @@ def run_job(job, tier):
     if not syms:
         return {"job": job, "status": "out_of_bound", "reason": "no symbolic dims"}
     lattice = LATTICE_Q if tier == "quick" else LATTICE_T
+    if tier == "quick" and job.startswith("R/"):
+        lattice = lattice[:3]  # registry programs: 1/1, 2/3, 3/3; the generated families get the full lattice
     seen, per = set(), []
     worst = None
     for b in lattice:
